@@ -154,6 +154,7 @@ View == <<kind, par, res, pc>>
 (* Constant sets                                                           *)
 (***************************************************************************)
 AllKinds == {"incoh", "coh", "alg"}
+GenKinds == {"incoh"}
 Q_Lens == {0, 1, 2, 5, 8}
 Q_NChans == {1, 2, 3}
 Q_IDelays == -7..7
@@ -164,7 +165,7 @@ Q_ASteps == {RQ(1, 4)}
 F_Lens == 0..8
 F_NChans == {1, 2, 3, 4}
 F_IDelays == -10..10
-F_QDelays == -43..43
+F_QDelays == -47..47
 F_AKdm == {RQ(-3, 1), RQ(-1, 7), RQ(1, 2), RQ(5, 3), RQ(4, 1)}
 F_AFreqs == {RQ(2, 3), RQ(1, 1), RQ(3, 2), RQ(7, 3), RQ(5, 1), RQ(11, 2)}
 F_ASteps == {RQ(1, 4), RQ(1, 3)}
